@@ -188,7 +188,7 @@ func respSig(o *rt.Outcome) string {
 
 func c11(ctx *core.Ctx) {
 	quietLogs()
-	ctx.Rule("generated histories of 4-20 operations over {Add, Remove (also repeated), Route, RemoveRoute (also of a route that is not there), Handle, HandleWithFilter} on a root-path pool built to collide (/, '', /a, /a/, /a/b, /a/{x}, /a/{x}/b, /a/{y}/c, /ab, /{z}, /u, /u/, /u/{a}, /users/{id}/a, /users/{id}/b, /{p}/{q} ...), dynamic and static services, duplicate (method,path) routes with different Produces, both routers, with and without the OPTIONS filter. After EVERY operation a fresh container is built from the model (new objects, same order) and ~250 probe requests (hits, near misses, handler patterns, strays; GET/POST/OPTIONS/DELETE) are answered via ServeHTTP and Dispatch by both; complete responses must be equal. Add/Handle must not panic. Non-trivial = a history prefix containing a Remove/RemoveRoute or >= 2 services; distinct by (operation kind, number of services, root-on-'/' present, handlers present, router).")
+	ctx.Rule("generated histories of 4-20 operations over {Add, Remove (also repeated), Route, RemoveRoute (also of a route that is not there), Handle, HandleWithFilter, a duplicate Handle whose documented panic the caller survives} on a root-path pool built to collide (/, '', /a, /a/, /a/b, /a/{x}, /a/{x}/b, /a/{y}/c, /ab, /{z}, /u, /u/, /u/{a}, /users/{id}/a, /users/{id}/b, /{p}/{q} ...), dynamic and static services, duplicate (method,path) routes with different Produces, both routers, with and without the OPTIONS filter. After EVERY operation a fresh container is built from the model (new objects, same order) and ~250 probe requests (hits, near misses, handler patterns, strays; GET/POST/OPTIONS/DELETE) are answered via ServeHTTP and Dispatch by both; complete responses must be equal. Add/Handle must not panic. Non-trivial = a history prefix containing a Remove/RemoveRoute or >= 2 services; distinct by (operation kind, number of services, root-on-'/' present, handlers present, router).")
 	ctx.Assume("histories never add a duplicate root path (the library exits by contract) and never register a handler pattern twice")
 	hists := ctx.N(250, 20000)
 	nextID := 0
@@ -238,6 +238,9 @@ func c11(ctx *core.Ctx) {
 				default:
 					if len(m.Handlers) < len(c11Patterns) {
 						kind = "Handle"
+					}
+					if len(m.Handlers) > 0 && r.Chance(1, 4) {
+						kind = "HandleDuplicate"
 					}
 				}
 			}
@@ -348,6 +351,16 @@ func c11(ctx *core.Ctx) {
 					if err := s.ws.RemoveRoute(fp, "GET"); err != nil {
 						panic(err)
 					}
+				case "HandleDuplicate":
+					// documented: "If a handler already exists for pattern, Handle panics." A caller that survives the
+					// panic has registered nothing; the container must go on like one that never saw the call.
+					h := m.Handlers[r.Intn(len(m.Handlers))]
+					desc = fmt.Sprintf("Handle(%q) again [panics by contract, recovered by the caller]", h.Pattern)
+					opsLog = append(opsLog, desc)
+					func() {
+						defer func() { recover() }()
+						c.Handle(h.Pattern, c11Handler(999999))
+					}()
 				case "Handle":
 					var pat string
 					for {
